@@ -228,6 +228,15 @@ def main():
                 else:
                     broken.append("theorem {} not discharged / non-standard axioms: {}".format(
                         t, axioms.get(t)))
+        if rc == 0 and a.tier == "thorough":
+            # independent re-check of the compiled proofs by the toolchain's leanchecker
+            mods_ = list(mod.LEAN_MODULES) + list(getattr(mod, "LEMMA_MODULES", []))
+            with C.Lake():
+                pc = subprocess.run(["lake", "env", "leanchecker"] + mods_, cwd=C.LEAN,
+                                    capture_output=True, text=True, timeout=3000)
+            ctx.notes.append("leanchecker {}: rc={}".format(" ".join(mods_), pc.returncode))
+            if pc.returncode != 0:
+                broken.append("leanchecker rejected {}: {}".format(mods_, (pc.stdout + pc.stderr)[-500:]))
         forb = grep_forbidden(mod)
         for b in forb:
             broken.append("forbidden construct: " + b)
@@ -341,6 +350,7 @@ def main():
             "exhaustive": bool(res.get("exhaustive", False)),
             "search": {k: v for k, v in (searched or {}).items() if k != "failures"},
             "known_findings_seen": [k["id"] for k, _ in known],
+            "notes": ctx.notes,
         },
         "assumptions": list(getattr(mod, "ASSUMPTIONS", [])),
         "wall_s": round(wall, 2),
